@@ -24,10 +24,13 @@ SIM.update({
  "C15": ("exploration", "vector-clock happens-before monitor fed by the orderings flurry passes at its seams during seeded simulated runs (every cross-thread payload read must be ordered after the payload's initialisation); plus Miri many-seeds (weak-memory emulation, data-race detector) on the unhooked crate", "5/C15"),
 })
 
+SIM.update({
+ "C19": ("exploration", "rayon half: flurry's par_extend / from_par_iter driven through rayon's ParallelIterator plumbing by a simulated pool whose workers are scheduled threads of the simulator (seeded schedule search, stalls), judged as blind inserts by the linearizability checker plus exact key-set / supplied-value oracle for parallel collects, drop ledger and quarantine allocator; serde half: Serialize/Deserialize through serde_json over harness-owned byte streams with injected short transfers, EINTR, hard errors and EOF at chosen offsets on generated documents (repeated keys; input generation, no schedule), oracle: equal collection / error / never a panic, no leak on error paths", "5/C19"),
+})
+
 NA = [
  ("C16", "compile-time borrow-checker verdict on program texts; nothing executes, so there is no schedule, clock or fault for a simulator to control"),
  ("C17", "compile-time trait-bound verdict on program texts; nothing executes"),
- ("C19", "serde half is a pure function of the input document; rayon half gets its concurrency from rayon-core's pool, which has no scheduler seam without patching a dependency"),
 ]
 PENDING = []
 
